@@ -139,7 +139,7 @@ var redactionSpecs = map[string]redactionSpec{
 		"m.room.power_levels": plKeysV1, "m.room.history_visibility": {"history_visibility"}}},
 	"redaction:v11": {top: topLevelV11, content: map[string][]string{
 		"m.room.member": {"membership", "join_authorised_via_users_server"}, "m.room.create": {}, // {} = keep all
-		"m.room.join_rules": {"join_rule", "allow"},
+		"m.room.join_rules":   {"join_rule", "allow"},
 		"m.room.power_levels": append(append([]string{}, plKeysV1...), "invite"), "m.room.history_visibility": {"history_visibility"},
 		"m.room.redaction": {"redacts"}},
 		nested: map[string][]string{"m.room.member": {"third_party_invite.signed"}}},
